@@ -374,16 +374,34 @@ def in_domain(v, form, lo, hi, elements) -> bool:
 
 
 def missing_domain_is_library_error() -> list:
-    m = R.build((((),),), [(1, 1)])
-    op = GenerateRandomAttribute()
-    op.set_name('cost')
-    try:
-        op.execute(m)
-    except FlamaException:
-        return []
-    except Exception as exc:
-        return ['missing domain reported as %s (%s), not as a library error (FlamaException)' % (type(exc).__name__, exc)]
-    return ['missing domain not reported at all']
+    """a missing domain is a library error on every model and configuration of the operation: features lacking the
+    attribute, every targeted feature already carrying it (e.g. after an earlier generation), leaves only or all, a
+    root-only model; and the model is left untouched."""
+    out = []
+    for shape, cards in (((((),),), [(1, 1)]), ((((), ()), ((),)), [(1, 2), (0, 1)]), ((), [])):
+        n = R.n_features(shape)
+        chil = R.children_of(shape)
+        for have in ('none', 'leaves', 'all'):
+            for only_leaves in (False, True):
+                m = R.build(shape, cards)
+                for i, f in enumerate(_index(m)):
+                    if have == 'all' or (have == 'leaves' and not chil[i]):
+                        f.add_attribute(Attribute('cost', None, 1, None))
+                before = R.snapshot(m)
+                op = GenerateRandomAttribute()
+                op.set_name('cost')
+                op.set_only_leaf_features(only_leaves)
+                where = 'shape %s, features that already have the attribute: %s, only leaves: %s' % (R.shape_str(shape), have, only_leaves)
+                try:
+                    op.execute(m)
+                    out.append('missing domain not reported at all (%s)' % where)
+                except FlamaException:
+                    pass
+                except Exception as exc:
+                    out.append('missing domain reported as %s (%s), not as a library error (FlamaException) (%s)' % (type(exc).__name__, exc, where))
+                if R.snapshot(m) != before:
+                    out.append('model modified although the domain is missing (%s)' % where)
+    return out
 
 
 def replay_gen(shape, have_mask, only_leaves, form, lo, hi, draws, elems=None):
